@@ -546,7 +546,11 @@ impl Locale {
         key: &'a Key,
         value: &ParsedValue,
     ) -> Option<(&'a str, PluralRuleType, PluralForm)> {
-        if matches!(value, ParsedValue::Ranges(_) | ParsedValue::Subkeys(_)) {
+        if matches!(
+            value,
+            ParsedValue::Ranges(_) | ParsedValue::Subkeys(_) | ParsedValue::Default
+        ) {
+            // an explicit default (null) can't be rendered as a plural form
             return None;
         }
         let (base_key, suffix) = key.name.rsplit_once('_')?;
